@@ -482,6 +482,27 @@ class Gen:
                 self.desc.features.add("import_listed_twice")
             head = "imports:" + (" null\n" if not imp_lines else "\n" + "\n".join(imp_lines) + "\n")
             files[paths[i]] = head + body
+        # other spellings of the same YAML (per file): document markers, CRLF line ends, trailing comments, an empty
+        # value instead of null, a blank before the array bracket
+        import re as _re
+        for rel in list(files):
+            t = files[rel]
+            if rng.random() < 0.12:
+                t = _re.sub(r"(?m)^(      \w+: [A-Za-z_][\w ]*?)\[", r"\1 [", t)
+                self.desc.features.add("spelling_blank_before_bracket")
+            if rng.random() < 0.12:
+                t = t.replace("fields: null", "fields:")
+                self.desc.features.add("spelling_empty_fields_value")
+            if rng.random() < 0.12:
+                t = _re.sub(r"(?m)^(  K_\w+: [^'\n#]+)$", r"\1   # a remark", t)
+                self.desc.features.add("spelling_trailing_comment")
+            if rng.random() < 0.1:
+                t = "---\n" + t + "...\n"
+                self.desc.features.add("spelling_document_markers")
+            if rng.random() < 0.08:
+                t = t.replace("\n", "\r\n")
+                self.desc.features.add("spelling_crlf")
+            files[rel] = t
         symlinks = {}
         if shape == "symlink" and k >= 2:
             # root additionally imports f0 through a symlinked duplicate path
